@@ -24,7 +24,26 @@ type sgen struct {
 }
 
 func (g *sgen) emit(s string) {
-	g.hist[strings.Fields(s)[0]]++
+	f := strings.Fields(s)
+	g.hist[f[0]]++
+	switch f[0] { // the distribution of what the handler programs do, of the faults and of the asynchronous requests
+	case "prog":
+		for _, h := range strings.Split(f[2], ";") {
+			op := strings.SplitN(h, ":", 2)[0]
+			if op == "ret" {
+				op = h
+			}
+			g.hist["in-"+f[1]+":"+op]++
+		}
+	case "inject":
+		if f[3] == "errno" {
+			g.hist["fault:"+f[1]+":"+f[4]]++
+		} else {
+			g.hist["short:"+f[1]]++
+		}
+	case "async":
+		g.hist["async:"+f[2]]++
+	}
 	fmt.Fprintln(&g.b, s)
 }
 
